@@ -563,6 +563,9 @@ func (x *Exec) verifyInlineLit(lit *ast.FuncLit, st *State, params, results []st
 		o.old = pre
 		o.out = outNormal
 		saveCtx := x.saveContractCtx()
+		// postconditions see the literal's own top-level locals too (scope at the closing brace)
+		litEntryPos := x.inlineLitPos
+		x.inlineLitPos = lit.Body.Rbrace
 		for i, en := range ensures {
 			lab := en.Label
 			if lab == "" {
@@ -579,6 +582,21 @@ func (x *Exec) verifyInlineLit(lit *ast.FuncLit, st *State, params, results []st
 				applies := true
 				for _, tag := range strings.Split(en.Prop, ";") {
 					tag = strings.TrimSpace(tag)
+					if strings.HasPrefix(tag, "local:") {
+						// a local (of the generator or of the literal) must exist on this path
+						present := false
+						if sc := x.pkg.Types.Scope().Innermost(x.inlineLitPos); sc != nil {
+							if _, obj := sc.LookupParent(strings.TrimPrefix(tag, "local:"), x.inlineLitPos); obj != nil {
+								if _, ok := o.env[obj]; ok {
+									present = true
+								}
+							}
+						}
+						if !present {
+							applies = false
+						}
+						continue
+					}
 					neg := strings.HasPrefix(tag, "nopath:")
 					want := strings.TrimPrefix(strings.TrimPrefix(tag, "nopath:"), "path:")
 					hit := false
@@ -625,6 +643,7 @@ func (x *Exec) verifyInlineLit(lit *ast.FuncLit, st *State, params, results []st
 				ob.Prop = en.Prop
 			}
 		}
+		x.inlineLitPos = litEntryPos
 		x.restoreContractCtx(saveCtx)
 	}
 	x.nlitVerified++
